@@ -40,21 +40,22 @@ def models(tier):
     if q:
         mapcfg("map-2", (1, 1), 1, 2, 2, 3, 1, 4, True)
     else:
-        mapcfg("map-2", (1, 1), 2, 2, 2, 4, 1, 5, True)
+        mapcfg("map-2", (1, 1), 2, 2, 2, 4, 1, 4, True)
+        mapcfg("map-2b", (1, 1), 1, 2, 2, 3, 1, 5, True)
     # the library's load factor 0.75, compaction at every erase, two values
     mapcfg("map-3", (3, 4), 1, 1, 2, 4, 1 if q else 2, 5 if q else 6, False, need=("rehash", "reuse", "compact"))
     if not q:
         mapcfg("map-4", (3, 4), 2, 3, 3, 5, 1, 6, False)
     M.append(dict(name="vector", mod="Vector", c="vector", spec="GenSpec",
-                  consts=dict(NVals=2, MaxLen=4, MaxHist=4 if q else 5, MaxSrc=2, MaxCap=5), p={},
+                  consts=dict(NVals=2, MaxLen=4, MaxHist=4, MaxSrc=2, MaxCap=5) if q else dict(NVals=2, MaxLen=5, MaxHist=5, MaxSrc=3, MaxCap=6), p={},
                   props=["INVARIANT WellFormedInv", "PROPERTY Refinement", "PROPERTY DeviationsAreReal"],
                   need=["realloc", "insertInPlace", "eraseShift", "assignInPlace", "deviation"]))
     M.append(dict(name="string", mod="String", c="string", spec="GenSpec",
-                  consts=dict(NUnits=2, MaxLen=4, MaxHist=3 if q else 4, MaxSrc=2), p={},
+                  consts=dict(NUnits=2, MaxLen=4, MaxHist=3, MaxSrc=2) if q else dict(NUnits=2, MaxLen=5, MaxHist=4, MaxSrc=3), p={},
                   props=["INVARIANT InvariantsInv", "PROPERTY Refinement", "PROPERTY DeviationsAreReal"],
                   need=["realloc", "selfInPlace", "selfMove", "emptyWithBuffer", "deviation"]))
     M.append(dict(name="list", mod="List", c="list", spec="Spec",
-                  consts=dict(NVals=2, MaxLen=3, MaxHist=4 if q else 5, MaxSrc=2), p={},
+                  consts=dict(NVals=2, MaxLen=3, MaxHist=4, MaxSrc=2) if q else dict(NVals=2, MaxLen=4, MaxHist=5, MaxSrc=3), p={},
                   props=["INVARIANT WellFormedInv", "PROPERTY Refinement"],
                   need=["reuse", "selfSplice", "splice"]))
     M.append(dict(name="deque", mod="Deque", c="deque", spec="GenSpec",
@@ -362,8 +363,8 @@ def run(res, tier, seed):
     # ---- MC + GEN (one TLC run per model: refinement checked on every generated transition, leaves exported)
     exe_future = ThreadPoolExecutor(max_workers=1).submit(build_exe)
     cases, tagcount = [], {}
-    par = 3 if quick else 2
-    caps = (1600, 900, 120) if quick else (20000, 8000, 600)
+    par = 3
+    caps = (1600, 900, 120) if quick else (12000, 5000, 400)
     with ThreadPoolExecutor(max_workers=par) as ex:
         outs = list(ex.map(lambda m: run_model(m, wd, max(2, vlib.NCPU // (par + 1)), caps, seed), ms))
     for m, (r, hs, counts) in zip(ms, outs):
@@ -383,6 +384,8 @@ def run(res, tier, seed):
     rnd = random.Random(seed)
     if not quick:
         sims = [m for m in ms if m["name"] in ("map-2", "map-3", "map-4", "vector", "string", "list", "deque", "deque-3")]
+        ms_q = {m["name"]: m for m in models("quick")}
+        sims = [dict(m, consts=dict(ms_q[m["name"]]["consts"])) if m["name"] in ("vector", "string", "list") else m for m in sims]   # small operand spaces: faster steps
         with ThreadPoolExecutor(max_workers=2) as ex:
             souts = list(ex.map(lambda m: simulate(m, wd, 8 if m["c"] == "list" else 50, 40, seed, 4), sims))   # num is per worker
         for m, (r, hs) in zip(sims, souts):
